@@ -10,19 +10,25 @@ ASSUMPTIONS = [
     "the model has one reader (a bit list with an offsets table), the product of back-ends is covered by the "
     "correspondence run only; Elias-Fano (sux) is a trusted container whose entries are read back and compared "
     "with the record positions of the proved decoder",
+    "the index-level state machines of MaskedIter and Succ (BV/MaskedIter.v) correspond to masked_iter.rs and to "
+    "Succ::next of random_access.rs: MaskedIter is public and is compared directly (items, len(), kind of panic) on "
+    "canonical, decoder-shaped and malformed block lists; Succ is private and is compared end to end (m_sm) on every "
+    "node of reference depth <= 10 of every artefact",
 ]
 
 PATHS = ["ra", "ralen", "outdeg", "iter", "iter_from", "next_from", "seq_iter", "seq_iter_from", "seq_next",
          "offdeg", "offdeg_from", "check_impl"]
 # the property evaluated on what the implementation returned: every path under every variant equals the
 # input lists; scan degrees = list lengths; scan offsets = Elias-Fano entries = record positions
-ORACLE = {"i_load"} | {"i_" + p for p in PATHS} | {"degs", "offs", "ef", "depth"}
+ORACLE = {"i_load"} | {"i_" + p for p in PATHS} | {"degs", "offs", "ef", "depth", "mi_spec"}
 # model against implementation
 CORR = {"rt", "m_ra", "m_merge", "m_outdeg", "m_iter_from", "m_iter_ring", "m_seq_from", "m_next", "m_offdeg", "m_offdeg_from", "m_offdeg_ring", "m_offdeg_from_ring",
-        "m_fuel"}
+        "m_fuel", "m_sm", "m_mi"}
 
 
 def nontrivial(case):
+    if case.get("kind") == "mi":
+        return ("mi", case.get("l"), case.get("bs")) if case.get("l") and case.get("bs") else None
     if case.get("skipped") == "1" or int(case.get("n", "0")) < 2 or int(case.get("arcs", "0")) < 1:
         return None
     return (case.get("g"), case.get("comp"), case.get("chunk"), case.get("w"), case.get("mr"), case.get("L"),
@@ -35,6 +41,7 @@ def run(ctx):
         ("seq", 40, 300 if quick else 6000, 0),      # all start positions 0..n
         ("chain", 40, 120 if quick else 2500, 1),    # long reference chains, small windows
         ("seq", 120, 12 if quick else 300, 2),       # larger graphs, sampled start positions
+        ("mi", 14, 4000 if quick else 200000, 3),    # the public MaskedIter alone against its state machine
     ]
     rs = []
     for (mode, maxn, count, so) in runs:
@@ -49,7 +56,11 @@ def run(ctx):
                  "0..inf, min interval 0..7, all 15 codes per component, BE/LE, both compressors), compressed by "
                  "comp_graph, offsets built by store_ef_with_data; every case read through 12 paths x 16 load-mode "
                  "pairs x dynamic (+ static for default codes) dispatch, all start nodes 0..n for n <= 40, sampled "
-                 "otherwise; non-trivial = at least 2 nodes and 1 arc; distinct = different (graph, configuration)")
+                 "otherwise; non-trivial = at least 2 nodes and 1 arc; distinct = different (graph, configuration); "
+                 "mode mi: MaskedIter::new + next until None over a Vec iterator on (list of 0..14 items, block list) pairs, "
+                 "40% canonical (what the compressor emits), 40% decoder-shaped (first block >= 0, later >= 1, sum within "
+                 "the list, any parity), 20% malformed; the extracted state machine must yield the same items and len(), "
+                 "or fail with the same kind of panic (index / subtraction overflow / debug assertion)")
     violations, known = codec.verdict("C03", r)
     r.update({"violations": violations, "known": known})
     return r
